@@ -115,10 +115,14 @@ class ModelsMixin:
     def binop(self, op, l: Val, r: Val, st, node, aug=False) -> Val:
         from .interp import BINOP
 
+        if self.dead and ((not l.ty and not l.pts) or (not r.ty and not r.pts)):
+            return Val()  # an operand is bottom (its callee has not returned yet): so is the result
+
         res = None
         dn, rdn = BINOP[type(op)]
         callees, argl = [], []
         l_handled = False
+        self._grp_push()
         if not aug:
             for c in l.insts():
                 ms = self.prog.lookup(c, dn)
@@ -149,9 +153,14 @@ class ModelsMixin:
         if callees:
             self.rec_call(node, callees, argl, "binop", recv=l, ret=res)
         r_other = r.ty - {t for t in r.ty if t.startswith("inst:")}
-        if (l_other or not l.ty) and (r_other or not r.ty) or res is None:
-            res = join(res, self.builtin_binop(op, l, r, st, node))
-        return res
+        builtin_too = bool((l_other or not l.ty) and (r_other or not r.ty) or not callees)
+        self._grp_pop(res, other=builtin_too)
+        if builtin_too:
+            # the builtin semantics concerns only the non-instance part of the operands
+            l2 = l.with_(ty=l_other, pts=frozenset(o for o in l.pts if not (o[0] == "N" and "obj:" in str(o[1][3])))) if (l_other and l.insts()) else l
+            r2 = r.with_(ty=r_other, pts=frozenset(o for o in r.pts if not (o[0] == "N" and "obj:" in str(o[1][3])))) if (r_other and r.insts()) else r
+            res = join(res, self.builtin_binop(op, l2, r2, st, node))
+        return res if res is not None else Val()
 
     def builtin_binop(self, op, l: Val, r: Val, st, node) -> Val:
         seq = {"list", "tuple"}
@@ -186,6 +195,7 @@ class ModelsMixin:
         dep, mdep = set(left.all_dep()), set(left.mdep)
         cur = left
         callees, argl = [], []
+        self._grp_push()
         for op, c in zip(e.ops, e.comparators):
             rv = self.ev(c, st)
             dep |= rv.all_dep()
@@ -214,6 +224,7 @@ class ModelsMixin:
                             dep |= rr.dep
                             mdep |= rr.mdep
             cur = rv
+        self._grp_pop(None, other=True)
         if callees:
             self.rec_call(e, callees, argl, "cmp", recv=left)
         self.ctx.vals[nk(e)] = mk_bool().with_(dep=dep, mdep=mdep)
@@ -246,6 +257,7 @@ class ModelsMixin:
     def iter_elem(self, v: Val, st, node) -> Val:
         self.check_iterable(v, node)
         res = None
+        self._grp_push()
         for c in v.insts():
             ms = self.prog.lookup(c, "__iter__")
             if ms:
@@ -258,6 +270,7 @@ class ModelsMixin:
             else:
                 if v.elem is not None:
                     res = join(res, v.elem.add_dep(v.dep, v.mdep))
+        self._grp_pop(res, other=bool(v.ty - {t for t in v.ty if t.startswith("inst:")}) or not v.insts())
         if res is not None and not (v.ty - {t for t in v.ty if t.startswith("inst:")}):
             return res
         if "range" in v.ty:
@@ -280,6 +293,7 @@ class ModelsMixin:
             self.may_raise("TypeError", node=node)
         res = None
         callees, argl = [], []
+        self._grp_push()
         for c in base.insts():
             ms = self.prog.lookup(c, "__getitem__")
             if ms:
@@ -292,12 +306,13 @@ class ModelsMixin:
                 # tuple subclass (ImmutableKnotVector)
                 if "slice" in idx.ty:
                     res = join(res, self.fresh(node, {"tuple"}, elem=base.elem, dep=base.dep | idx.dep, mdep=base.mdep, kind={"N"}))
-                else:
+                if idx.ty - {"slice"} or not idx.ty:
                     e = base.elem if base.elem is not None else Val(ty={"number"}, kind=self.A.user_number().kind)
                     res = join(res, e.add_dep(base.dep | idx.dep, base.mdep))
+        other = base.ty - {t for t in base.ty if t.startswith("inst:")}
+        self._grp_pop(res, other=bool(other) or not callees)
         if callees:
             self.rec_call(node, callees, argl, "subscript", recv=base, ret=res)
-        other = base.ty - {t for t in base.ty if t.startswith("inst:")}
         if not other and res is not None:
             return res
         d, m = base.dep | idx.dep, base.mdep | idx.mdep
@@ -352,8 +367,8 @@ class ModelsMixin:
         return out
 
     def _match1(self, v: Val, t: str, tag: str) -> str:
-        if t == "?" and tag in NUMERIC_TAGS and (v.kind - {"N"}) and "N" not in v.kind and "U" not in v.kind:
-            t = "number"  # an untyped value known to be a number of these kinds
+        if t == "?" and tag in NUMERIC_TAGS and (v.kind - {"N"}) and "U" not in v.kind and ("N" not in v.kind or self.A.exact):
+            t = "number"  # an untyped value known to be a number of these kinds (exact context: user data are exact numbers)
         if t == "?" or tag in ("cls:?", "cls:object"):
             return "m" if tag != "cls:object" else "y"
         c = tag[4:] if tag.startswith("cls:") else tag
@@ -363,7 +378,9 @@ class ModelsMixin:
                 if self.prog.is_subclass(x, c):
                     return "y"
                 if self.prog.is_subclass(c, x):
-                    return "m"
+                    # the static type is a base class: if all its concrete subclasses are below c it is one of them
+                    leaves = [y for y in self.prog.all_subclasses(x) if not self.prog.all_subclasses(y)]
+                    return "y" if leaves and all(self.prog.is_subclass(y, c) for y in leaves) else "m"
                 return "n"
             if c == "tuple" and self.prog.is_subclass(x, "ImmutableKnotVector"):
                 return "y"
@@ -371,6 +388,15 @@ class ModelsMixin:
         if c in self.prog.classes:
             return "n"
         if t in ("number", "int", "float", "bool"):
+            if tag in NUMERIC_TAGS and not self.A.exact:
+                # number kinds steer branches only in the exact context; here a number may be of any class
+                if t == "bool":
+                    return "y" if c == "int" else "n"
+                if t == "int" and c in ("float", "np.floating", "np.float64", "Fraction"):
+                    return "n"
+                if t == "float" and c in ("int", "np.integer", "np.int64", "Fraction"):
+                    return "n"
+                return "m"
             if tag in NUMERIC_TAGS:
                 want = NUMERIC_TAGS[tag]
                 k = set(v.kind) - {"N"}
@@ -541,7 +567,7 @@ class ModelsMixin:
             keep &= set(v.ty) | {"?"}
             nkind = v.kind
             numtags = [t for t in tags if t in NUMERIC_TAGS]
-            if numtags and (v.kind - {"N"}):
+            if numtags and (v.kind - {"N"}) and self.A.exact:
                 want = set().union(*[NUMERIC_TAGS[t] for t in numtags])
                 k = set(v.kind)
                 nkind = frozenset((k & (want | {"U", "N"})) if pol else (k - want))
